@@ -2219,6 +2219,18 @@ def c13_rules(ctx):
                 r = core.reach(f, start=(first.bb, first.idx), cut_edges=e)
                 ctx.check(cp and cp[0].bb not in r['term'], 'guard|%s|recheck|%s' % (f.path, callee), 'after begin_write, compaction proceeds only through a re-check of %s' % callee, f, first.line)
     ctx.callers_eq(WT + '::compact_pages', {'Database::compact'})
+    # what "a user read reference exists" means: the per-id reference COUNT is compared with the number
+    # of pending non-durable commits pinning that id (a user reader on a pinned id must still be seen)
+    g = ctx.fn(TT + '::any_user_read_reference_exists')
+    if g is not None:
+        trues = []
+        for i, b_ in enumerate(g.blocks):
+            for j, s_ in enumerate(b_['s']):
+                if s_[0] == 'a' and s_[1][0] == 0 and not s_[1][1] and s_[2]['k'] == 'use' and s_[2]['o'][0] == 'k' and s_[2]['o'][2] is True:
+                    trues.append(Point(g, i, j, 'return true', s_[3]))
+        ctx.check(len(trues) >= 1, 'floor|%s|true' % g.path, 'any_user_read_reference_exists has a `true` result', g, g.line)
+        ctx.guarded_cmp(g, trues, [Guard(call='Iterator::count', cmp=True)], '`true` is control-dependent on a comparison with the number of pending pins of that id')
+        ctx.held(g, ctx.sites(g, 'Iterator::count', exact=1), TTSTATE)
     ctx.set_rule('C13.R2', 'compaction publishes only through ordinary commits; pending frees drained with two-phase commits')
     f = ctx.fn('Database::drain_pending_free_pages')
     if f is not None:
@@ -3112,3 +3124,63 @@ def refcount_rules(ctx):
     for p_ in sorted(own):
         ctx.check(any(core.name_matches(e, core.alt_names(p_)) for e in exp), 'new-writer|live_read_transactions|%s' % p_, '`%s` mutates TransactionTracker.live_read_transactions (confirmed writers: the five registration/release functions)' % p_)
     ctx.check(len(own) >= 5, 'floor|live_read_transactions-writers', 'the five confirmed writers of live_read_transactions were found (%d)' % len(own))
+
+
+# ------------------------------------------------------------------------------------ retained checksums (C10)
+def _places_read(f):
+    for b in f.blocks:
+        for st in b['s']:
+            if st[0] == 'a':
+                rv = st[2]
+                ops = []
+                if rv['k'] in ('use', 'cast', 'un', 'repeat'):
+                    ops = [rv['o']]
+                elif rv['k'] in ('bin', 'agg'):
+                    ops = rv['o']
+                elif rv['k'] in ('ref', 'rawptr', 'disc'):
+                    ops = [['c', rv['p']]]
+                for o in ops:
+                    if o and o[0] in ('c', 'm'):
+                        yield o[1], st
+        t = b['t']
+        if t['k'] == 'call':
+            for a in t['a']:
+                if a[0] in ('c', 'm'):
+                    yield a[1], None
+
+
+def retained_checksum_rules(ctx):
+    ctx.set_rule('C10.R7', 'checksums retained for clean pages are propagated, never replaced by DEFERRED: whoever consumes the surviving child of a deleted branch also consumes its checksum')
+    n = 0
+    for f in ctx.facts.fn_list:
+        if f.d.get('impl_trait', '').endswith('fmt::Debug'):
+            continue
+        r0 = r1 = 0
+        for pl, _st in _places_read(f):
+            pr = pl[1]
+            if '@DeletedBranch' in pr:
+                i = pr.index('@DeletedBranch')
+                if len(pr) > i + 1 and pr[i + 1] == '.0':
+                    r0 += 1
+                if len(pr) > i + 1 and pr[i + 1] == '.1':
+                    r1 += 1
+        if r0 or r1:
+            n += 1
+            ctx.fns_touched.add(f.path)
+            ctx._ob(r1 >= 1 and r0 >= 1, ctx.sample('payload', f, f.line, 'DeletedBranch payload: child read %d, checksum read %d' % (r0, r1)))
+            if r0 and not r1:
+                ctx.violate('retained-checksum-dropped|%s' % f.path, 'the surviving child of a DeletedBranch is used but its retained checksum is discarded: a clean (committed) page would be committed under a DEFERRED or stale checksum, which finalize_dirty_checksums never recomputes', f, f.line)
+    ctx.check(n >= 2, 'floor|DeletedBranch-consumers', 'consumers of DeletionResult::DeletedBranch analysed: %d' % n)
+    # and the checksum read flows into the header / child pointer that is built from the child
+    f = ctx.fn('MutateHelper::finish_deletion')
+    if f is not None:
+        bh = ctx.sites(f, 'BtreeHeader::new', floor=3)
+        okk = False
+        for p_ in bh:
+            a1 = p_.call.t['a'][1]
+            if a1[0] in ('c', 'm'):
+                ls, _c, _a, _k = core.flow_sources(f, a1)
+                # derives from the matched payload (the deletion_result parameter)
+                if any(f.local_name(l) == 'deletion_result' for l in ls) or any(f.local_name(l) == 'checksum' for l in ls):
+                    okk = True
+        ctx.check(okk, 'flow|%s|checksum' % f.path, 'one BtreeHeader::new in finish_deletion takes its checksum from the deletion result (the DeletedBranch arm)', f, f.line)
